@@ -40,11 +40,11 @@ INCONCLUSIVE_BUDGET = 0.05
 def plan(tier):
     if tier == 'thorough':
         return {'shards': 16, 'timeout_s': 1700}
-    return {'shards': 4, 'timeout_s': 280}
+    return {'shards': 8, 'timeout_s': 280}
 
 
 def n_histories(tier):
-    return 60 if tier == 'thorough' else 10
+    return 60 if tier == 'thorough' else 30
 
 
 def gen_history(rng, tier):
